@@ -63,6 +63,17 @@ def run(chk, replay=None):
     seqs = vlib.tlc_printed(r["out"], "SEQ")
     chk.add_tlc(r, "GenSeq simulate: %d operation sequences of length 12" % len(seqs))
     fam = [script(["bind4"] + s, netlib.TYPES[i % len(netlib.TYPES)], i + 1) for i, s in enumerate(seqs)]
+    # a listener survives a failing accept(): the process runs out of descriptors while a connection waits in the backlog
+    scen = len(fam)
+    for t, tr in ((("ROUTER", "tcp4"), ("PULL", "ipc"), ("PUB", "tcp6")) + ((("REP", "tcp4"), ("DEALER", "ipc"), ("SUB", "tcp4")) if thorough else ())):
+        scen += 1
+        ops = [{"op": "bind", "name": "e1", "ep": netlib.ep(tr, "x%d" % scen)}, {"op": "bind", "name": "e2", "ep": netlib.ep("tcp4", "y%d" % scen)},
+               {"op": "client", "k": 1, "name": "e1", "kind": "good"},
+               {"op": "fd_exhaust", "keep": 2}, {"op": "client", "k": 20, "name": "e1", "kind": "stall", "at": 0}, {"op": "client", "k": 21, "name": "e2", "kind": "stall", "at": 0},
+               {"op": "sleep", "ms": 300}, {"op": "fd_release"}, {"op": "sleep", "ms": 100}]
+        ops += netlib.probes(["e1", "e2"], {"e1"} if tr == "ipc" else set(), bound=["e1", "e2"]) + [{"op": "exchange", "k": 1}, {"op": "unbind", "name": "e1"}]
+        ops += netlib.probes(["e1", "e2"], {"e1"} if tr == "ipc" else set(), bound=["e2"])
+        fam.append({"scen": scen, "sock": t, "ops": ops, "tag": "accept-fails-emfile/" + tr})
     for s in fam: chk.case(s["tag"], nontrivial=True)
     chk.sample({"kind": "operation sequence", "sock": fam[0]["sock"], "seq": fam[0]["tag"], "ops": len(fam[0]["ops"])})
     v = netlib.run_net(chk, fam, "c18")
